@@ -25,6 +25,18 @@ BUILT = {
  "C14": ("client", "property-based testing against a Sink/Stream contract monitor over the logged transport operations, both readiness models",
          "Every start_send/poll_ready/poll_flush/poll_close call is logged by the scripted transport and checked against the Sink contract for generated capacities, budgets and faults.",
          "The scripted transport is maximally permissive outside the stated rules.", "DESIGN.md §5 C14"),
+ "C04": ("server", "stateful property-based testing of the real server channel against a reference model of read-and-unanswered ids; handler poll counters",
+         "Cancels at every position relative to handler start/completion/response write, unknown and finished ids, with/without request limit; checks frozen handler polls, no response, in-flight count agreement, no collateral aborts. Cascade part (chains) pending.",
+         "Finding F6 region (limit, at limit, sink not ready) is steered around and counted.", "DESIGN.md §5 C04"),
+ "C06": ("server", "property-based testing under virtual time against per-request expiry bounds and a no-spurious-abort invariant",
+         "Concurrent requests with different deadlines, clock steps around each deadline; exact 'never early', 2 ms 'must be gone', completed-in-time implies answered.",
+         "Finding F6 region steered around and counted; spans beyond 2^36 ms excluded (F3).", "DESIGN.md §5 C06"),
+ "C08": ("server", "stateful property-based testing against a reference model of read-and-unanswered request ids",
+         "Fresh / duplicate-in-flight / reused-after-completion ids, cancels, closes, handler completion order, response buffer 1-4; exactly-once offering, at most one response, response only with handler result.",
+         "Id reuse after cancel/expiry (outside the stated quantifier) is not generated; histories where an expiry races an id reuse are exempted per id.", "DESIGN.md §5 C08"),
+ "C12": ("server", "stateful property-based testing against an interval (lower/upper) reference model of the in-flight count",
+         "Bursts, cancel-then-request before one poll, completions in any order, sink blocked; admitted only if lower<L, refused only if upper>=L, refusal = exactly one WouldBlock response and no handler.",
+         "Finding F6 region steered around and counted.", "DESIGN.md §5 C12"),
  "C01": ("client", "stateful property-based testing (proptest op sequences over the real client dispatch under an owned scheduler) against a wire reference model",
          "Generated call/reply/abandon/expire histories and schedules; a model of the wire decides which payload each call may return. Exploration, not proof: bounded scenario length, poll-granularity schedules.",
          "Trusts the scripted transport and executor of the harness; virtual time via clock_gettime interposition.", "DESIGN.md §5 C01"),
@@ -57,6 +69,7 @@ m = {
  },
  "engines": [
    {"name": "client", "path": "harness/src/engines/client.rs", "serves_properties": [p for p in BUILT if BUILT[p][0]=="client"], "kind_free_text": "real tarpc client dispatch + handles + caller tasks over a scripted transport, owned scheduler, virtual time"},
+   {"name": "server", "path": "harness/src/engines/server.rs", "serves_properties": [p for p in BUILT if BUILT[p][0]=="server"] + ["C09","C10","C11","C14"], "kind_free_text": "real BaseChannel / MaxRequests / Requests / execute() over a scripted transport with scripted handlers; environment plays the client"},
  ],
  "checks": checks,
  "not_applicable": [{"property_id": p, "reason": "check not built yet in this round (planned in DESIGN.md §5); not claimed"} for p in ALL if p not in BUILT],
